@@ -39,13 +39,13 @@ type lexTwo struct {
 }
 
 type lexLine struct {
-	T string          `json:"t"`
-	R json.RawMessage `json:"r"`
-	P []string        `json:"p"`
-	N []string        `json:"n"`
-	M bool            `json:"m"`
-	LM string         `json:"lm"` // full Match specification, Linux flavour: "true" | "false" | "ERR"
-	WM string         `json:"wm"` // ... Windows flavour
+	T  string          `json:"t"`
+	R  json.RawMessage `json:"r"`
+	P  []string        `json:"p"`
+	N  []string        `json:"n"`
+	M  bool            `json:"m"`
+	LM string          `json:"lm"` // full Match specification, Linux flavour: "true" | "false" | "ERR"
+	WM string          `json:"wm"` // ... Windows flavour
 }
 
 // LexFinding is one disagreement.
